@@ -113,7 +113,7 @@ func c14Enumerate(tier string, seed int64, emit func(string, any)) {
 			for _, c := range set3 {
 				for i, o1 := range ops {
 					for j, o2 := range ops {
-						if !thorough && (i+j+a+b+c)%3 != 0 {
+						if (i+j+a+b+c)%3 != 0 { // each (a,b,c) keeps 3 of the 9 operator pairs; every operator pair occurs for every pair of neighbouring terms
 							continue
 						}
 						mk("3 terms", a, o1, b, o2, c)
